@@ -40,7 +40,11 @@ func gtabThroughDisk(c *wk.Case, info *gtab.Info, tp gtab.Type, damage bool) (*g
 	}
 	if damage {
 		nf := 1 + c.T.Weighted(5, 2, 1)
+		multiRange = 0
 		regions := locate(info, data)
+		if multiRange > 0 {
+			c.Count("tables_with_multi_range_records_damaged", 1)
+		}
 		for i := 0; i < nf; i++ {
 			var f simgen.Fault
 			lo, hi := 0, len(data)
@@ -51,7 +55,11 @@ func gtabThroughDisk(c *wk.Case, info *gtab.Info, tp gtab.Type, damage bool) (*g
 				lo, hi = r[0], r[1]
 				c.Count("faults_aimed_at_coverage_or_classdef", 1)
 			}
-			data, f = simgen.Corrupt(c.T, data, lo, hi, nil)
+			if hi-lo < len(data) && c.T.Chance(1, 4) {
+				data, f = simgen.OverlapRecords(c.T, data, lo, hi)
+			} else {
+				data, f = simgen.Corrupt(c.T, data, lo, hi, nil)
+			}
 			c.Count("fault_"+f.Kind, 1)
 			c.Logf("%s table fault: %v", tp, f)
 		}
@@ -75,6 +83,8 @@ func gtabThroughDisk(c *wk.Case, info *gtab.Info, tp gtab.Type, damage bool) (*g
 	return res, true
 }
 
+var multiRange int
+
 var (
 	covTableType = reflect.TypeOf(coverage.Table{})
 	covSetType   = reflect.TypeOf(coverage.Set{})
@@ -93,6 +103,9 @@ func locate(info *gtab.Info, data []byte) [][2]int {
 		seen[string(enc)] = true
 		if i := bytes.Index(data, enc); i >= 0 {
 			res = append(res, [2]int{i, i + len(enc)})
+			if enc[0] == 0 && enc[1] == 2 && enc[3] >= 2 {
+				multiRange++
+			}
 		}
 	}
 	var walk func(v reflect.Value)
